@@ -31,6 +31,8 @@ func propC04(c *Ctx) {
 		ruleAssertInhabited(c, rai, func(pp string) bool { return pp == modPath+"/encoder" })
 		rgr := c.Rule("gob-register-cover", "every data object type the encoder has a codec for is registered with gob: such a value can be nested in an object that is written through gob", 8)
 		ruleGobRegisterCover(c, rgr)
+		reg := c.Rule("encode-guard-survives", "every branch of the encoding functions that reads a field of an encoded struct reads a field the decoding functions restore: encoding a decoded Bytecode takes the same decisions as encoding the compiled one", 5)
+		ruleEncodeGuardSurvives(c, reg)
 		rsl := c.Rule("syncmap-lock", "the encoder walks a SyncMap's map only while it holds the SyncMap's lock (a decoded Bytecode links the host's live module objects: re-encoding it runs beside the host's writers)", 1)
 		ruleSyncMapLock(c, rsl, func(pp string) bool { return pp == modPath+"/encoder" })
 		rsa := c.Rule("scalar-accept", "the integer scalar decoders reject, on the ground of the decoded value, only values outside the range of the Go type the encoder writes", 3)
